@@ -71,11 +71,13 @@ var linModel = porcupine.Model{
 			}
 			return out == n, st
 		case "active":
-			ok := out == b(e.Present)
-			if e.Present {
+			// an activation takes effect (used + one Update) only on a registration that is tracked AND validated
+			// (fix eab6a08: a tracked registration that is not valid is left alone)
+			eff := e.Present && e.Valid
+			if eff {
 				e.Used = true
 			}
-			return ok, st
+			return out == b(eff), st
 		case "remove":
 			// the sweeper forgets a record only if it is (still) expired when it takes the lock: in the
 			// recorded workload every unused record counts as expired and no used one does
